@@ -271,17 +271,25 @@ def runScript : St → List String → List String → List String → List Stri
     let r := step st op
     runScript r.1 ops (r.2.1 :: eff) (match r.2.2 with | some x => x :: rep | none => rep)
 
+def showOrd (a b : Nat) : String := if a < b then "lt" else if a = b then "eq" else "gt"
+
 open SurfModel.KeyParse in
-/-- `cmp <key> <key>`: `Ord::cmp` of two keys = comparison of their codes -/
-def handleCmp (a b : String) : String :=
+/-- `cmp <key> <key>`: `Ord::cmp` of two keys = comparison of their codes;
+    `cmpn`: of their names only (variant position, then payload); `cmpm`: of their modifier sets only (the bits) -/
+def handleCmp (which : String) (a b : String) : String :=
   match readKey a, readKey b with
-  | some a, some b => if a.code < b.code then "lt" else if a.code = b.code then "eq" else "gt"
+  | some a, some b =>
+    if which == "cmp" then showOrd a.code b.code
+    else if which == "cmpn" then showOrd (a.name.rank * 2 ^ 64 + a.name.payload) (b.name.rank * 2 ^ 64 + b.name.payload)
+    else showOrd a.mode b.mode
   | _, _ => "bad-op"
 
 def handle : List String → String
   | "km" :: ops => " ".intercalate (runScript {} ops [] []).1
   | "kmrep" :: ops => " ".intercalate (runScript {} ops [] []).2
-  | ["cmp", a, b] => handleCmp a b
+  | ["cmp", a, b] => handleCmp "cmp" a b
+  | ["cmpn", a, b] => handleCmp "cmpn" a b
+  | ["cmpm", a, b] => handleCmp "cmpm" a b
   | rest => SurfModel.KeyParse.handle rest
 
 end SurfModel.KeyMap
